@@ -7,7 +7,8 @@ rmdir "$wt"
 git -C /repo worktree add -q --detach "$wt" HEAD || exit 2
 if ! git -C "$wt" apply "$patch"; then echo "PATCH DOES NOT APPLY"; git -C /repo worktree remove --force "$wt"; exit 2; fi
 for id in "$@"; do
-  out=$(cd /verif && VERIF_REPO="$wt" ./check "$id" --tier quick 2>&1); rc=$?
+  out=$(cd /verif && VERIF_REPO="$wt" VERIF_EVIDENCE_DIR="$wt.ev" VERIF_RUN_DIR="$wt.run" VERIF_REPLAY_DIR="$wt.rp" ./check "$id" --tier quick 2>&1); rc=$?
   echo "== $id rc=$rc $(echo "$out" | grep -c '^VIOLATION') violation keys"; echo "$out" | grep -A1 '^VIOLATION' | grep clause | head -4
 done
 git -C /repo worktree remove --force "$wt"
+rm -rf "$wt.ev" "$wt.run" "$wt.rp"
